@@ -50,8 +50,25 @@ def main():
     n_frames = int(sys.argv[1])
     seed = int(sys.argv[2])
     t = md.load(os.path.join(mdv_boot.REPO, "tests", "data", "2EQQ.pdb"))[:n_frames]
-    box = np.tile(np.array([[4.0, 0, 0], [0.5, 4.5, 0], [0.25, -0.75, 5.0]], dtype=np.float32), (t.n_frames, 1, 1))
-    t.unitcell_vectors = box
+    # a skewed cell smaller than the protein, so that many separations cross cell faces, whose shape changes from frame to frame in one
+    # parameter at a time (alpha only keeps a_x, b_x, c_x bit-identical; sometimes nothing changes): results must depend on the frame's own cell only
+    lengths = np.zeros((t.n_frames, 3), dtype=np.float32); angles = np.zeros((t.n_frames, 3), dtype=np.float32)
+    lengths[0] = (2.0, 2.3, 2.6); angles[0] = (80.0, 75.0, 65.0)
+    for f in range(1, t.n_frames):
+        lengths[f] = lengths[f - 1]; angles[f] = angles[f - 1]
+        step = (f - 1) % 6
+        if step == 0:
+            angles[f, 0] += 4.0
+        elif step == 2:
+            lengths[f, 2] += 0.125
+        elif step == 3:
+            angles[f, 2] += 3.0
+        elif step == 4:
+            lengths[f, 1] += 0.125
+        elif step == 5:
+            angles[f, 0] -= 6.0
+    t.unitcell_lengths = lengths
+    t.unitcell_angles = angles
     F = functions(md, t.n_atoms)
     perm = np.random.RandomState(seed).permutation(t.n_frames)
     out = {}
